@@ -57,6 +57,22 @@ CLAIMED = {
    note=TB + "Theorems cover the basic adapter; the ssh and custom/standalone adapters are not yet in the model (their verify-then-rename shape was read, DESIGN §5/C02). HTTP stack and TCP cuts are real; their fidelity is the harness's.",
    technique="Lean 4 proof (case analysis over the download state machine with file and hasher state separate) + per-attempt differential correspondence vs the real adapter",
    ref="§5 C02, Appendix J"),
+ "C06": dict(
+   text="Lean theorems over the transfer-queue event system (status map per oid; all interleavings = all accepted event lists): accounting invariant in every reachable state (counter = #live oids, never negative, "
+        "no duplicates, delivered only after a successful transfer), conservation at Wait return (delivered / no action / errored), termination measure strictly decreasing on every non-add event, no stuck state, "
+        "Add enabled when there is room; trace validation proved sound (an accepted trace is a model run). The real TransferQueue runs in child processes against scripted batch server + adapter; every observed "
+        "VerifTrace event list is validated against the model (each event enabled, each retry/drop/deliver decision equal), delivery counts compared; watchdog/panic/conservation oracle on the observations.",
+   note=TB + "Interleavings are explored at event granularity in the proof; below that (races inside handleTransferResult) only the real runs speak. Channel capacity is not validated from traces (the trace point precedes the blocking send); Add liveness is the watchdog's.",
+   technique="Lean 4 proof (invariant + termination measure + progress over an event system) + trace validation of the real queue against the model",
+   ref="§5 C06, Appendices F/R"),
+ "C15": dict(
+   text="Lean theorems: retry counter <= maxRetries in every reachable state, a retry is counted or ends the object, non-retriable outcomes are terminal and terminal is absorbing, a batch only takes waiting objects "
+        "(never two in flight), an expired action is never handed to the adapter, back-off <= configured maximum incl. uint64 wrap-around (exact until the cap, capped after, for maxMs < 2^57), zero means zero, "
+        "nothing is batched before its ready time; tq constants regenerated; the queue campaign's timestamped server/adapter logs are judged (attempt counts, Retry-After, overlap, terminal failures), ReadyTime and the "
+        "manifest's reading of the settings are compared with the model directly.",
+   note=TB + "Time is real in the campaign (comparisons are 'not earlier than' with slack); the timed part of the model is the Concat partition only.",
+   technique="Lean 4 proof (invariants over the event system + modular arithmetic on wrapped uint64) + trace validation and timestamp oracle on the real queue",
+   ref="§5 C15, Appendix N"),
 }
 PENDING_REASON = "check not built yet in this session (build in progress, see DESIGN.md §10); not claimed until its theorems and correspondence run"
 ALL = ["C%02d" % i for i in range(1, 21)]
